@@ -67,8 +67,9 @@ def make_route(spec, **kw):
     rkw = dict(kw)
     if spec.get('render_arg'):
         rkw['render'] = 'tmpl-' + spec['rid']
-    if spec.get('methods'):
-        rkw['methods'] = list(spec['methods'])
+    if spec.get('methods') is not None:
+        # (an empty collection is passed on as it is: it restricts nothing)
+        rkw['methods'] = list(spec['methods']) if spec['methods'] or not spec.get('methods_as_tuple') else ()
     if spec.get('mode'):
         rkw['slash_mode'] = spec['mode']
     if spec.get('with_render') and 'render' not in rkw:
